@@ -156,13 +156,13 @@ def _dip_constant(Rij, gi, gj):
 def _dip_tensor(d, r, rotation_axis=None):
     """Full dipolar tensor given a constant and a connecting vector"""
 
-    r = np.array(r)
+    r = np.array(r, dtype=float)
     r /= np.linalg.norm(r)
 
     if rotation_axis is None:
         D = d * (3 * r[:, None] * r[None, :] - np.eye(3))
     else:
-        a = np.array(rotation_axis)
+        a = np.array(rotation_axis, dtype=float)
         a /= np.linalg.norm(a)
         vp2 = np.dot(r, a) ** 2
         D = 0.5 * d * (3 * vp2 - 1) * (3 * a[:, None] * a[None, :] - np.eye(3))
